@@ -47,6 +47,8 @@ def evalz(t, env=None):
             if e.num_args() == 0:
                 if nm in env:
                     return env[nm]
+                if z3.is_bool(e) and nm.split("!")[0] in ("cmpnan", "isnan", "isfin") or nm.split("_")[0] in ("cmpnan", "isnan", "isfin"):
+                    return False     # outcome of a comparison on an undefined (NaN) operand: only reachable inside values that are not-ok anyway
                 raise KeyError(nm)
             a = [go(c) for c in ch]
             if nm == "EXP":
